@@ -1,4 +1,4 @@
-\* the mechanism as shipped: one process-wide entry.  TLC must find  balance, x IN (SELECT .. balance ..), balance
+\* the mechanism as shipped before fix 678e809: one process-wide entry.  TLC must find  balance, x IN (SELECT .. balance ..), balance
 CONSTANTS
   Threads = {1}
   CacheMode = "process-wide one entry"
